@@ -83,7 +83,7 @@ func c15(w *core.World, r *core.Report) {
 				return
 			}
 			n++
-			if core.IsNilConst(p.Resolve(ret.Results[0])) {
+			if pathNil(p, ret.Results[0]) {
 				isRole := isResultOf("(*pkg/cluster.redisElection).Campaign", 0)
 				if !(p.Holds(token.EQL, isRole, isConstInt(leader))) {
 					bad, badPos = "renewal reports success on a path where the campaign did not answer 'leader'", ret.Pos()
@@ -332,7 +332,7 @@ func ruleCampaignWrapper(w *core.World, r *core.Report, f *ssa.Function) {
 		}
 		failed := p.Holds(token.NEQ, isErr, core.IsNilConst)
 		if failed {
-			if role != cand || core.IsNilConst(p.Resolve(ret.Results[1])) {
+			if role != cand || pathNil(p, ret.Results[1]) {
 				bad, badPos = "a failed campaign must answer candidate with a non-nil error", ret.Pos()
 			}
 			return
